@@ -47,6 +47,26 @@ def run(rep):
     rep.run(C06.candidates)
     rep.alias = {}
     rep.run(repeated)
+    rep.run(no_truncated_search)
+
+
+def no_truncated_search(rep):
+    """the reactor asks the matcher for ALL embeddings (the threshold empties an oversized result, it never truncates it): a positive max_results
+    keeps whichever embeddings are enumerated first - and that depends on how the substrate's atoms are numbered"""
+    SR_ = "synkit/Synthesis/Reactor/syn_reactor.py"
+    n = 0
+    for q, fi in sorted(rep.repo.module(SR_).funcs.items()):
+        if not q.startswith("SynReactor.") or ".<locals>." in q:
+            continue
+        for c in [c for c in walk_local(fi.node) if isinstance(c, ast.Call) and call_name(c) == "find_subgraph_mappings"]:
+            n += 1
+            v = kwarg(c, "max_results")
+            ok = True if (v is None or is_const(v, None)) else None
+            if v is not None and isinstance(v, ast.Constant) and isinstance(v.value, (int, float)) and not isinstance(v.value, bool) and v.value > 0:
+                ok = False
+            rep.ob("O5.2", "SHAPE", fi, ok, c, "the reactor enumerates every embedding (no max_results cut: a truncated enumeration keeps the matches that happen to come "
+                   "first for this atom numbering)", node=c)
+    rep.need("SHAPE", n, 2, "find_subgraph_mappings calls in SynReactor")
 
 
 def _comp_fallback(rep):
